@@ -23,7 +23,9 @@ import (
 	"time"
 
 	"golang.org/x/telemetry/internal/config"
+	"golang.org/x/telemetry/internal/configstore"
 	"golang.org/x/telemetry/internal/counter"
+	"golang.org/x/telemetry/internal/proxy"
 	"golang.org/x/telemetry/internal/telemetry"
 	"golang.org/x/telemetry/internal/upload"
 	. "golang.org/x/telemetry/internal/verifh/vh_replib"
@@ -322,15 +324,13 @@ func caseReport(post bool, s scenario) {
 		}
 		pf, err := counter.Parse(name, data)
 		if err != nil {
-			panic(fmt.Sprintf("the real parser rejects a generated counter file: %v", err))
+			pf = &counter.File{}
+			out.Note("real-parser-rejects-a-valid-file")
 		}
-		if len(pf.Count) != len(fs.Counts) {
-			panic("the real parser lost counters of a generated file")
-		}
-		if len(pf.Count) > 0 {
+		if len(fs.Counts) > 0 {
 			anyCounts = true
 		}
-		f = append(f, WFile(pf.Meta, pf.Count)...)
+		f = append(f, WFileRef(fs, pf.Meta, pf.Count, err)...)
 	}
 	out.Note(fmt.Sprintf("files-%d", nf))
 	out.Note(fmt.Sprintf("builds-%d", s.nb))
@@ -483,10 +483,10 @@ func writeWeek(tdir telemetry.Dir, end time.Time, files []fileSpec) []string {
 		}
 		pf, err := counter.Parse(name, data)
 		if err != nil {
-			panic(fmt.Sprintf("the real parser rejects a generated counter file: %v", err))
+			pf = &counter.File{}
 		}
 		f = append(f, HS(base), I(end.Unix()))
-		f = append(f, WFile(pf.Meta, pf.Count)...)
+		f = append(f, WFileRef(fs, pf.Meta, pf.Count, err)...)
 	}
 	return f
 }
@@ -600,6 +600,162 @@ func caseSeq() {
 	out.Case(true, f...)
 }
 
+// ---------------------------------------------------------------- upload.Run itself, twice in one process
+
+// caseRuns: this process calls the real upload.Run (config download by the go
+// command from a file:// proxy, report building, HTTP upload to a local
+// server) two or three times on one telemetry directory with the SAME
+// RunConfig environment, while the configuration module publishes a new
+// version between the Runs (approvals withdrawn or added) and the next week's
+// count files expire.  Every Run is compared with the model of a Run that
+// fetches the newest version of the store as it is at that Run, and its
+// reports are judged by report_check under THAT configuration.
+func caseRuns() {
+	m0 := GenX(rnd)
+	var cfgA *telemetry.UploadConfig
+	var files []fileSpec
+	BigValues = false
+	switch rnd.Intn(3) {
+	case 0:
+		cfgA, files = GenSharedNamesWeek(rnd, XOf(m0))
+	case 1:
+		cfgA, files = GenSameBaseWeek(rnd, XOf(m0))
+	default:
+		cfgA = GenConfig(rnd, XOf(m0))
+		for i := 0; i < 1+rnd.Intn(3); i++ {
+			b := GenIdent(rnd, cfgA)
+			files = append(files, fileSpec{ID: b, Counts: GenCounts(rnd, cfgA, b.Program, 6)})
+		}
+	}
+	cfgA.SampleRate = Pick(rnd, []float64{0, 1})
+	cfgB := WithdrawSomething(rnd, cfgA, files)
+	nruns := 2 + rnd.Intn(2)
+	versions := []string{"v1.0.0", "v1.1.0", "v1.2.0"}
+	var cfgs []*telemetry.UploadConfig
+	switch rnd.Intn(3) {
+	case 0: // approvals withdrawn
+		cfgs = []*telemetry.UploadConfig{cfgA, cfgB, cfgA}
+	case 1: // approvals added
+		cfgs = []*telemetry.UploadConfig{cfgB, cfgA, cfgB}
+	default:
+		cfgs = []*telemetry.UploadConfig{cfgA, cfgB, GenConfig(rnd, XOf(m0))}
+	}
+	dir, err := os.MkdirTemp(root, "u")
+	if err != nil {
+		panic(err)
+	}
+	defer func() {
+		filepath.Walk(dir, func(p string, info os.FileInfo, err error) error {
+			if err == nil && info.IsDir() {
+				os.Chmod(p, 0777)
+			}
+			return nil
+		})
+		os.RemoveAll(dir)
+	}()
+	tele := filepath.Join(dir, "tele")
+	tdir := telemetry.NewDir(tele)
+	os.MkdirAll(tdir.LocalDir(), 0777)
+	os.MkdirAll(tdir.UploadDir(), 0777)
+	end := time.Date(2001+rnd.Intn(90), time.Month(1+rnd.Intn(12)), 1+rnd.Intn(28), 0, 0, 0, 0, time.UTC)
+	if err := tdir.SetModeAsOf("on", end.AddDate(0, 0, -100)); err != nil {
+		panic(err)
+	}
+	proxyDir := filepath.Join(dir, "proxy")
+	var env []string // the same for every Run of the process
+	var mu sync.Mutex
+	bodies := map[string][]byte{}
+	srv := httptest.NewServer(http.HandlerFunc(func(w http.ResponseWriter, r *http.Request) {
+		b, _ := io.ReadAll(r.Body)
+		mu.Lock()
+		bodies[r.URL.Path] = b
+		mu.Unlock()
+		w.WriteHeader(200)
+	}))
+	defer srv.Close()
+	f := []string{"runs", I(int64(nruns))}
+	realistic := rnd.Bool()
+	for k := 0; k < nruns; k++ {
+		// the configuration module as published so far
+		pfiles := map[string][]byte{}
+		f = append(f, I(int64(k+1)))
+		for j := 0; j <= k; j++ {
+			enc, _ := json.Marshal(cfgs[j])
+			dp := fmt.Sprintf("%v@%v/", configstore.ModulePath, versions[j])
+			pfiles[dp+"go.mod"] = []byte("module " + configstore.ModulePath + "\n\ngo 1.20\n")
+			pfiles[dp+"config.json"] = enc
+			f = append(f, HS(versions[j]))
+			f = append(f, WConfig(cfgs[j])...)
+		}
+		os.RemoveAll(proxyDir)
+		uri, err := proxy.WriteProxy(proxyDir, pfiles)
+		if err != nil {
+			panic(err)
+		}
+		if env == nil {
+			env = []string{"GOPROXY=" + uri, "GONOSUMDB=*", "GOSUMDB=off", "GOFLAGS=", "GOMODCACHE=" + filepath.Join(dir, "modcache")}
+		}
+		// this week's files
+		wend := end.AddDate(0, 0, 7*k)
+		wbegin := wend.AddDate(0, 0, -7)
+		week := wend.Format("2006-01-02")
+		wfiles := files
+		if k > 0 {
+			wfiles = grow(files, cfgA)
+			for i := range wfiles {
+				wfiles[i].Name = ""
+			}
+		}
+		wfiles = PlaceFiles(rnd, wfiles, wbegin, wend, realistic)
+		ents, _ := os.ReadDir(tdir.LocalDir())
+		for _, e := range ents {
+			if strings.HasSuffix(e.Name(), ".v1.count") {
+				os.Remove(filepath.Join(tdir.LocalDir(), e.Name()))
+			}
+		}
+		lastWeek := ""
+		ups, _ := os.ReadDir(tdir.UploadDir())
+		for _, e := range ups {
+			if strings.HasSuffix(e.Name(), ".json") && strings.TrimSuffix(e.Name(), ".json") > lastWeek {
+				lastWeek = strings.TrimSuffix(e.Name(), ".json")
+			}
+		}
+		start := wend.Add(time.Duration(1+rnd.Intn(6*24*3600)) * time.Second)
+		m := GenX(rnd)
+		f = append(f, I(start.Unix()), HS(week), HS(lastWeek), U(bitsOf(XOf(m))))
+		f = append(f, writeWeek(tdir, wend, wfiles)...)
+		crand.Reader = &CycleReader{Data: append(RandBytesFor(rnd, m), RandBytesFor(rnd, m^(1<<uint(rnd.Intn(52))))...)}
+		if err := upload.Run(upload.RunConfig{TelemetryDir: tele, UploadURL: srv.URL, Env: env, StartTime: start}); err != nil {
+			panic(fmt.Sprintf("upload.Run: %v", err))
+		}
+		// the uploaded copy stands for the upload report; the POSTed bytes must be the same
+		upName := filepath.Join(tdir.UploadDir(), week+".json")
+		if data, err := os.ReadFile(upName); err == nil {
+			mu.Lock()
+			same := bytes.Equal(bodies["/"+week], data)
+			mu.Unlock()
+			os.WriteFile(filepath.Join(tdir.LocalDir(), week+".json"), data, 0666) // where observe() looks
+			f = append(f, B(same))
+			f = append(f, observe(tdir, week)...)
+			os.Remove(filepath.Join(tdir.LocalDir(), week+".json"))
+		} else {
+			f = append(f, B(true))
+			f = append(f, observe(tdir, week)...)
+		}
+	}
+	out.Note(fmt.Sprintf("runs-%d", nruns))
+	out.Case(true, f...)
+}
+
+// countFDs: open file descriptors of this process
+func countFDs() int {
+	ents, err := os.ReadDir("/proc/self/fd")
+	if err != nil {
+		return 0
+	}
+	return len(ents)
+}
+
 func main() {
 	outPath := os.Args[1]
 	n, _ := strconv.Atoi(os.Args[2])
@@ -611,27 +767,44 @@ func main() {
 		panic(err)
 	}
 	defer os.RemoveAll(root)
+	fds0 := countFDs()
 	for i := 0; i < n; i++ {
-		switch {
-		case i%10 < 2:
-			caseExpand()
-		case i%10 < 4:
-			caseCfg()
-		case i == 5:
-			caseReport(false, witnessRate())
-		case i == 6:
-			caseReport(false, witnessValue())
-		case i == 7:
-			caseReport(false, witnessBothKinds(1, 0))
-		case i == 8:
-			caseReport(false, witnessBothKinds(0, 1))
-		case i%10 == 9:
-			caseSeq()
-		case i%10 == 4:
-			caseReport(true, genScenario())
-		default:
-			caseReport(false, genScenario())
+		// watchdog: a case that does not come back is reported with its number, not left to the outer timeout
+		done := make(chan struct{})
+		go func() {
+			defer close(done)
+			switch {
+			case i%10 < 2:
+				caseExpand()
+			case i%10 < 4:
+				caseCfg()
+			case i == 5:
+				caseReport(false, witnessRate())
+			case i == 6:
+				caseReport(false, witnessValue())
+			case i == 7:
+				caseReport(false, witnessBothKinds(1, 0))
+			case i == 8:
+				caseReport(false, witnessBothKinds(0, 1))
+			case i%50 == 19:
+				caseRuns()
+			case i%10 == 9:
+				caseSeq()
+			case i%10 == 4:
+				caseReport(true, genScenario())
+			default:
+				caseReport(false, genScenario())
+			}
+		}()
+		select {
+		case <-done:
+		case <-time.After(120 * time.Second):
+			out.Case(true, "hang", I(int64(i)))
+			out.Close()
+			os.RemoveAll(root)
+			os.Exit(0)
 		}
 	}
+	out.Case(true, "fds", I(int64(fds0)), I(int64(countFDs())))
 	out.Close()
 }
